@@ -30,6 +30,7 @@ Definition exc_code (e : exc) : N :=
   | INDEX_SIZE => gen_INDEX_SIZE_ERR | HIERARCHY => gen_HIERARCHY_REQUEST_ERR | WRONG_DOC => gen_WRONG_DOCUMENT_ERR
   | INVALID_CHAR => gen_INVALID_CHARACTER_ERR | NO_MOD => gen_NO_MODIFICATION_ALLOWED_ERR
   | NOT_FOUND => gen_NOT_FOUND_ERR | NOT_SUPPORTED => gen_NOT_SUPPORTED_ERR | NAMESPACE => gen_NAMESPACE_ERR
+  | INUSE => gen_INUSE_ATTRIBUTE_ERR
   | E_INTERNAL => 99%N
   end.
 
@@ -42,7 +43,7 @@ Record node := mkNode {
   n_ty : ntype;
   n_name : str;                 (* fName / target *)
   n_val : str;                  (* fDataBuf (character data, PI data) *)
-  n_attrs : list (str * str);   (* DOMAttrMapImpl: vector sorted by name *)
+  n_attrs : list id;            (* DOMAttrMapImpl::fNodes: the Attr nodes, a vector sorted by nodeName *)
   n_owner : id;                 (* DOMNodeImpl::fOwnerNode: the parent when OWNED, else the owner document *)
   n_first : option id;          (* DOMParentNode::fFirstChild *)
   n_prev : option id;           (* DOMChildNode::previousSibling (first child: the LAST child) *)
@@ -53,11 +54,15 @@ Record node := mkNode {
   n_odoc : id;                  (* DOMParentNode::fOwnerDocument (a Document: itself) *)
   n_docel : option id;          (* DOMDocumentImpl::fDocElement *)
   n_ns : str;                   (* fNamespaceURI of DOMElementNSImpl / DOMAttrNSImpl ([] = null) *)
-  n_nsimpl : bool               (* the node is a DOMElementNSImpl / DOMAttrNSImpl object *)
+  n_nsimpl : bool;              (* the node is a DOMElementNSImpl / DOMAttrNSImpl object *)
+  n_oelem : option id;          (* an Attr: getOwnerElement().  The implementation keeps it in fOwnerNode + OWNED of the Attr;
+                                   it is a field of its own here because every other reader of those two on an Attr
+                                   (getParentNode) is overridden to ignore them *)
+  n_dead : bool                 (* the node was release()d: its memory is recycled, it is no longer a live node *)
 }.
 Definition heap := list node.
 
-Definition dummy : node := mkNode TText [] [] [] 0 None None None false false false 0 None [] false.
+Definition dummy : node := mkNode TText [] [] [] 0 None None None false false false 0 None [] false None false.
 Definition nd (h : heap) (i : id) : node := nth i h dummy.
 
 Fixpoint upd (h : heap) (i : id) (f : node -> node) : heap :=
@@ -67,15 +72,18 @@ Fixpoint upd (h : heap) (i : id) (f : node -> node) : heap :=
   | x :: r, S j => x :: upd r j f
   end.
 
-Definition set_val v (n : node) := mkNode (n_ty n) (n_name n) v (n_attrs n) (n_owner n) (n_first n) (n_prev n) (n_next n) (n_owned n) (n_isfirst n) (n_ro n) (n_odoc n) (n_docel n) (n_ns n) (n_nsimpl n).
-Definition set_attrs v (n : node) := mkNode (n_ty n) (n_name n) (n_val n) v (n_owner n) (n_first n) (n_prev n) (n_next n) (n_owned n) (n_isfirst n) (n_ro n) (n_odoc n) (n_docel n) (n_ns n) (n_nsimpl n).
-Definition set_owner v (n : node) := mkNode (n_ty n) (n_name n) (n_val n) (n_attrs n) v (n_first n) (n_prev n) (n_next n) (n_owned n) (n_isfirst n) (n_ro n) (n_odoc n) (n_docel n) (n_ns n) (n_nsimpl n).
-Definition set_first v (n : node) := mkNode (n_ty n) (n_name n) (n_val n) (n_attrs n) (n_owner n) v (n_prev n) (n_next n) (n_owned n) (n_isfirst n) (n_ro n) (n_odoc n) (n_docel n) (n_ns n) (n_nsimpl n).
-Definition set_prev v (n : node) := mkNode (n_ty n) (n_name n) (n_val n) (n_attrs n) (n_owner n) (n_first n) v (n_next n) (n_owned n) (n_isfirst n) (n_ro n) (n_odoc n) (n_docel n) (n_ns n) (n_nsimpl n).
-Definition set_next v (n : node) := mkNode (n_ty n) (n_name n) (n_val n) (n_attrs n) (n_owner n) (n_first n) (n_prev n) v (n_owned n) (n_isfirst n) (n_ro n) (n_odoc n) (n_docel n) (n_ns n) (n_nsimpl n).
-Definition set_owned v (n : node) := mkNode (n_ty n) (n_name n) (n_val n) (n_attrs n) (n_owner n) (n_first n) (n_prev n) (n_next n) v (n_isfirst n) (n_ro n) (n_odoc n) (n_docel n) (n_ns n) (n_nsimpl n).
-Definition set_isfirst v (n : node) := mkNode (n_ty n) (n_name n) (n_val n) (n_attrs n) (n_owner n) (n_first n) (n_prev n) (n_next n) (n_owned n) v (n_ro n) (n_odoc n) (n_docel n) (n_ns n) (n_nsimpl n).
-Definition set_docel v (n : node) := mkNode (n_ty n) (n_name n) (n_val n) (n_attrs n) (n_owner n) (n_first n) (n_prev n) (n_next n) (n_owned n) (n_isfirst n) (n_ro n) (n_odoc n) v (n_ns n) (n_nsimpl n).
+Definition set_val v (n : node) := mkNode (n_ty n) (n_name n) v (n_attrs n) (n_owner n) (n_first n) (n_prev n) (n_next n) (n_owned n) (n_isfirst n) (n_ro n) (n_odoc n) (n_docel n) (n_ns n) (n_nsimpl n) (n_oelem n) (n_dead n).
+Definition set_attrs v (n : node) := mkNode (n_ty n) (n_name n) (n_val n) v (n_owner n) (n_first n) (n_prev n) (n_next n) (n_owned n) (n_isfirst n) (n_ro n) (n_odoc n) (n_docel n) (n_ns n) (n_nsimpl n) (n_oelem n) (n_dead n).
+Definition set_owner v (n : node) := mkNode (n_ty n) (n_name n) (n_val n) (n_attrs n) v (n_first n) (n_prev n) (n_next n) (n_owned n) (n_isfirst n) (n_ro n) (n_odoc n) (n_docel n) (n_ns n) (n_nsimpl n) (n_oelem n) (n_dead n).
+Definition set_first v (n : node) := mkNode (n_ty n) (n_name n) (n_val n) (n_attrs n) (n_owner n) v (n_prev n) (n_next n) (n_owned n) (n_isfirst n) (n_ro n) (n_odoc n) (n_docel n) (n_ns n) (n_nsimpl n) (n_oelem n) (n_dead n).
+Definition set_prev v (n : node) := mkNode (n_ty n) (n_name n) (n_val n) (n_attrs n) (n_owner n) (n_first n) v (n_next n) (n_owned n) (n_isfirst n) (n_ro n) (n_odoc n) (n_docel n) (n_ns n) (n_nsimpl n) (n_oelem n) (n_dead n).
+Definition set_next v (n : node) := mkNode (n_ty n) (n_name n) (n_val n) (n_attrs n) (n_owner n) (n_first n) (n_prev n) v (n_owned n) (n_isfirst n) (n_ro n) (n_odoc n) (n_docel n) (n_ns n) (n_nsimpl n) (n_oelem n) (n_dead n).
+Definition set_owned v (n : node) := mkNode (n_ty n) (n_name n) (n_val n) (n_attrs n) (n_owner n) (n_first n) (n_prev n) (n_next n) v (n_isfirst n) (n_ro n) (n_odoc n) (n_docel n) (n_ns n) (n_nsimpl n) (n_oelem n) (n_dead n).
+Definition set_isfirst v (n : node) := mkNode (n_ty n) (n_name n) (n_val n) (n_attrs n) (n_owner n) (n_first n) (n_prev n) (n_next n) (n_owned n) v (n_ro n) (n_odoc n) (n_docel n) (n_ns n) (n_nsimpl n) (n_oelem n) (n_dead n).
+Definition set_docel v (n : node) := mkNode (n_ty n) (n_name n) (n_val n) (n_attrs n) (n_owner n) (n_first n) (n_prev n) (n_next n) (n_owned n) (n_isfirst n) (n_ro n) (n_odoc n) v (n_ns n) (n_nsimpl n) (n_oelem n) (n_dead n).
+
+Definition set_oelem v (n : node) := mkNode (n_ty n) (n_name n) (n_val n) (n_attrs n) (n_owner n) (n_first n) (n_prev n) (n_next n) (n_owned n) (n_isfirst n) (n_ro n) (n_odoc n) (n_docel n) (n_ns n) (n_nsimpl n) v (n_dead n).
+Definition set_dead v (n : node) := mkNode (n_ty n) (n_name n) (n_val n) (n_attrs n) (n_owner n) (n_first n) (n_prev n) (n_next n) (n_owned n) (n_isfirst n) (n_ro n) (n_odoc n) (n_docel n) (n_ns n) (n_nsimpl n) (n_oelem n) v.
 
 Definition oid_eqb (a b : option id) : bool :=
   match a, b with Some x, Some y => Nat.eqb x y | None, None => true | _, _ => false end.
@@ -344,7 +352,7 @@ Definition cd_substring (h : heap) (n : id) (off cnt : N) : heap * result :=
 (** ---------------------------------------------------------------- node creation *)
 Definition alloc (h : heap) (x : node) : heap * id := (h ++ [x], length h).
 Definition fresh (t : ntype) (doc : id) (nm v : str) (ro : bool) : node :=
-  mkNode t nm v [] doc None None None false false ro doc None [] false.
+  mkNode t nm v [] doc None None None false false ro doc None [] false None false.
 
 Definition create (h : heap) (doc : id) (t : ntype) (nm v : str) : heap * result :=
   match n_ty (nd h doc) with
@@ -424,14 +432,14 @@ Definition clone_shallow (cf : cfg) (h : heap) (n : id) : node :=
   let doc := match pub_odoc h n with Some d => d | None => n end in
   let copied_first := if fix_cloneflag cf then false else n_isfirst x in
   match n_ty x with
-  | TElem => mkNode TElem (n_name x) [] (n_attrs x) doc None None None false false false doc None (n_ns x) (n_nsimpl x)
-  | TAttr => mkNode TAttr (n_name x) [] [] doc None None None false copied_first false doc None (n_ns x) (n_nsimpl x)
-  | TFrag => mkNode TFrag [] [] [] doc None None None false false false doc None [] false
-  | TERef => mkNode TERef (n_name x) [] [] doc None None None false copied_first true doc None [] false
-  | t => mkNode t (n_name x) (n_val x) [] doc None None None false copied_first false doc None [] false
+  | TElem => mkNode TElem (n_name x) [] [] doc None None None false false false doc None (n_ns x) (n_nsimpl x) None false
+  | TAttr => mkNode TAttr (n_name x) [] [] doc None None None false copied_first false doc None (n_ns x) (n_nsimpl x) None false
+  | TFrag => mkNode TFrag [] [] [] doc None None None false false false doc None [] false None false
+  | TERef => mkNode TERef (n_name x) [] [] doc None None None false copied_first true doc None [] false None false
+  | t => mkNode t (n_name x) (n_val x) [] doc None None None false copied_first false doc None [] false None false
   end.
 
-Definition set_ro v (n : node) := mkNode (n_ty n) (n_name n) (n_val n) (n_attrs n) (n_owner n) (n_first n) (n_prev n) (n_next n) (n_owned n) (n_isfirst n) v (n_odoc n) (n_docel n) (n_ns n) (n_nsimpl n).
+Definition set_ro v (n : node) := mkNode (n_ty n) (n_name n) (n_val n) (n_attrs n) (n_owner n) (n_first n) (n_prev n) (n_next n) (n_owned n) (n_isfirst n) v (n_odoc n) (n_docel n) (n_ns n) (n_nsimpl n) (n_oelem n) (n_dead n).
 
 (** cloneChildren: for (mykid = other->getFirstChild(); mykid; mykid = mykid->getNextSibling())
                       appendChild(mykid->cloneNode(true))            -- DOMParentNode::appendChild;
@@ -454,6 +462,18 @@ Fixpoint clone_kids (k : nat) (clonef : heap -> id -> heap * result) (cf : cfg) 
     end
   end.
 
+(** DOMAttrMapImpl::cloneContent: clone = n->cloneNode(true); clone->fOwnerNode = owner; fNodes->addElement(clone) *)
+Fixpoint clone_attrs (clonef : heap -> id -> heap * result) (h : heap) (c : id) (l : list id) : heap * result :=
+  match l with
+  | [] => (h, ROk)
+  | a :: r =>
+    let (h2, r2) := clonef h a in
+    match r2 with
+    | RNode ac => clone_attrs clonef (upd (upd h2 ac (set_oelem (Some c))) c (set_attrs (n_attrs (nd h2 c) ++ [ac]))) c r
+    | _ => (h2, r2)
+    end
+  end.
+
 Fixpoint clone (fuel : nat) (cf : cfg) (h : heap) (n : id) (deep : bool) : heap * result :=
   match fuel with
   | O => (h, RErr E_INTERNAL)
@@ -462,39 +482,137 @@ Fixpoint clone (fuel : nat) (cf : cfg) (h : heap) (n : id) (deep : bool) : heap 
     else
     let (h1, c) := alloc h (clone_shallow cf h n) in
     let t := n_ty (nd h n) in
+    let res :=
     if (deep || ntype_eqb t TAttr) && negb (is_leaf t) then      (* the DOMAttrImpl copy constructor always clones the children *)
-      (* an EntityReference clone is made read-only after its children were cloned: setReadOnly(true,true) *)
-      let h1 := match t with TERef => upd h1 c (set_ro false) | _ => h1 end in
-      let (h4, r4) := clone_kids (S (length h)) (fun h0 m => clone f cf h0 m true) cf h1 c (n_first (nd h n)) in
-      if is_err r4 then (h4, r4)
-      else match t with
-           | TERef => (upd h4 c (set_ro true), RNode c)
-           | _ => (h4, RNode c)
-           end
-    else (h1, RNode c)
+        (* an EntityReference clone is made read-only after its children were cloned: setReadOnly(true,true) *)
+        let h1 := match t with TERef => upd h1 c (set_ro false) | _ => h1 end in
+        let (h4, r4) := clone_kids (S (length h)) (fun h0 m => clone f cf h0 m true) cf h1 c (n_first (nd h n)) in
+        if is_err r4 then (h4, r4)
+        else match t with
+             | TERef => (upd h4 c (set_ro true), RNode c)
+             | _ => (h4, RNode c)
+             end
+      else (h1, RNode c) in
+    (* the element's attributes are cloned after its children (DOMElementImpl copy constructor) *)
+    match t with
+    | TElem => if is_err (snd res) then res
+               else let (h5, r5) := clone_attrs (fun h0 a => clone f cf h0 a true) (fst res) c (n_attrs (nd h n)) in
+                    if is_err r5 then (h5, r5) else (h5, RNode c)
+    | _ => res
+    end
   end.
 Definition clone_node (cf : cfg) (h : heap) (n : id) (deep : bool) : heap * result :=
   clone (S (length h)) cf h n deep.
 
 (** ---------------------------------------------------------------- attributes (DOMAttrMapImpl, by name):
     the sorted vector operations attr_set / attr_remove / attr_get are in Ops13.v *)
+(** findNamePoint(name) + item: the attribute with that nodeName (the vector is sorted, the C++ searches by bisection;
+    a linear scan of a name-sorted vector finds the same element) *)
+Fixpoint amap_find (h : heap) (l : list id) (nm : str) : option id :=
+  match l with [] => None | a :: r => if str_eqb nm (n_name (nd h a)) then Some a else amap_find h r nm end.
+(** findNamePoint(namespaceURI, localName): linear search on the DOM Level 2 keys *)
+Fixpoint amap_find_ns (h : heap) (l : list id) (ns loc : str) : option id :=
+  match l with
+  | [] => None
+  | a :: r => if n_nsimpl (nd h a) && str_eqb ns (n_ns (nd h a)) && str_eqb loc (local_name (n_name (nd h a))) then Some a
+              else amap_find_ns h r ns loc
+  end.
+(** setElementAt(arg, i) when the name is present, insertElementAt(arg, insertion point) otherwise *)
+Fixpoint amap_put (h : heap) (l : list id) (a : id) : list id :=
+  match l with
+  | [] => [a]
+  | b :: r => match str_cmp (n_name (nd h a)) (n_name (nd h b)) with
+              | Eq => a :: r
+              | Lt => a :: l
+              | Gt => b :: amap_put h r a
+              end
+  end.
+Fixpoint amap_del (l : list id) (a : id) : list id :=
+  match l with [] => [] | b :: r => if Nat.eqb b a then r else b :: amap_del r a end.
+
+(** release(): the node and everything under it is handed back to the document's allocator *)
+Fixpoint kill (fuel : nat) (h : heap) (n : id) : heap :=
+  match fuel with
+  | O => h
+  | S f => fold_left (kill f) (kids h n) (upd h n (set_dead true))
+  end.
+
+(** DOMAttrImpl::getValue *)
+Definition attr_value (h : heap) (a : id) : str :=
+  flat_map (fun k => match n_ty (nd h k) with TText => n_val (nd h k) | _ => [] end) (kids h a).
+
+(** DOMAttrImpl::setValue: remove and release the children, append a new Text node *)
+Fixpoint drop_kids (k : nat) (h : heap) (a : id) : heap :=
+  match k with
+  | O => h
+  | S k' => match n_first (nd h a) with
+            | None => h
+            | Some c => drop_kids k' (kill (length h) (link_remove h a c) c) a
+            end
+  end.
+Definition attr_set_value (h : heap) (a : id) (v : str) : heap * result :=
+  if n_ro (nd h a) then (h, RErr NO_MOD)
+  else let h1 := drop_kids (S (length h)) h a in
+       let (h2, t) := alloc h1 (fresh TText (n_odoc (nd h a)) [] v false) in
+       (link_insert h2 a t None, ROk).                        (* appendChildFast *)
+
+(** DOMAttrMapImpl::setNamedItem *)
+Definition amap_set (h : heap) (e a : id) : heap * result :=
+  if negb (oid_eqb (pub_odoc h a) (Some (n_odoc (nd h e)))) then (h, RErr WRONG_DOC)
+  else if n_ro (nd h e) then (h, RErr NO_MOD)
+  else if match n_oelem (nd h a) with Some o => negb (Nat.eqb o e) | None => false end then (h, RErr INUSE)
+  else
+    let h1 := upd h a (set_oelem (Some e)) in
+    let prev := amap_find h1 (n_attrs (nd h1 e)) (n_name (nd h1 a)) in
+    let h2 := upd h1 e (set_attrs (amap_put h1 (n_attrs (nd h1 e)) a)) in
+    match prev with
+    | Some p => if Nat.eqb p a then (h2, RNode a)              (* repaired (F33): as found, the owner of a was cleared here too *)
+                else (upd h2 p (set_oelem None), RNode p)
+    | None => (h2, ROk)
+    end.
+
+Definition set_attribute_node (h : heap) (e a : id) : heap * result :=
+  if n_ro (nd h e) then (h, RErr NO_MOD) else amap_set h e a.
+
+Definition remove_attribute_node (h : heap) (e a : id) : heap * result :=
+  if n_ro (nd h e) then (h, RErr NO_MOD)
+  else
+    let found := if n_nsimpl (nd h a) then amap_find_ns h (n_attrs (nd h e)) (n_ns (nd h a)) (local_name (n_name (nd h a)))
+                 else amap_find h (n_attrs (nd h e)) (n_name (nd h a)) in
+    match found with
+    | Some f => if Nat.eqb f a                                 (* "if it is in fact the right object" *)
+                then (upd (upd h e (set_attrs (amap_del (n_attrs (nd h e)) a))) a (set_oelem None), RNode a)
+                else (h, RErr NOT_FOUND)
+    | None => (h, RErr NOT_FOUND)
+    end.
+
 Definition set_attribute (h : heap) (e : id) (nm v : str) : heap * result :=
   if n_ro (nd h e) then (h, RErr NO_MOD)
-  else match attr_get (n_attrs (nd h e)) nm with
-       | Some _ => (upd h e (set_attrs (attr_set (n_attrs (nd h e)) nm v)), ROk)
-       | None => if valid_name nm then (upd h e (set_attrs (attr_set (n_attrs (nd h e)) nm v)), ROk)
-                 else (h, RErr INVALID_CHAR)           (* createAttribute *)
+  else match amap_find h (n_attrs (nd h e)) nm with
+       | Some a => attr_set_value h a v
+       | None =>
+         if valid_name nm then
+           let (h1, a) := alloc h (fresh TAttr (n_odoc (nd h e)) nm [] false) in
+           let (h2, r2) := amap_set h1 e a in
+           if is_err r2 then (h2, r2) else attr_set_value h2 a v
+         else (h, RErr INVALID_CHAR)           (* createAttribute *)
        end.
 Definition remove_attribute (h : heap) (e : id) (nm : str) : heap * result :=
   if n_ro (nd h e) then (h, RErr NO_MOD)
-  else (upd h e (set_attrs (attr_remove (n_attrs (nd h e)) nm)), ROk).
+  else match amap_find h (n_attrs (nd h e)) nm with
+       | Some a =>
+         let h1 := upd (upd h e (set_attrs (amap_del (n_attrs (nd h e)) a))) a (set_oelem None) in
+         (kill (length h) h1 a, ROk)                             (* att->release() *)
+       | None => (h, ROk)
+       end.
 Definition get_attribute (h : heap) (e : id) (nm : str) : heap * result :=
-  (h, RStr (match attr_get (n_attrs (nd h e)) nm with Some v => v | None => [] end)).
+  (h, RStr (match amap_find h (n_attrs (nd h e)) nm with Some a => attr_value h a | None => [] end)).
+Definition get_attribute_node (h : heap) (e : id) (nm : str) : heap * result :=
+  (h, match amap_find h (n_attrs (nd h e)) nm with Some a => RNode a | None => ROk end).
 
-(** ---------------------------------------------------------------- operations *)
 (** ---------------------------------------------------------------- renameNode *)
-Definition set_name v (n : node) := mkNode (n_ty n) v (n_val n) (n_attrs n) (n_owner n) (n_first n) (n_prev n) (n_next n) (n_owned n) (n_isfirst n) (n_ro n) (n_odoc n) (n_docel n) (n_ns n) (n_nsimpl n).
-Definition set_ns v (n : node) := mkNode (n_ty n) (n_name n) (n_val n) (n_attrs n) (n_owner n) (n_first n) (n_prev n) (n_next n) (n_owned n) (n_isfirst n) (n_ro n) (n_odoc n) (n_docel n) v (n_nsimpl n).
+Definition set_name v (n : node) := mkNode (n_ty n) v (n_val n) (n_attrs n) (n_owner n) (n_first n) (n_prev n) (n_next n) (n_owned n) (n_isfirst n) (n_ro n) (n_odoc n) (n_docel n) (n_ns n) (n_nsimpl n) (n_oelem n) (n_dead n).
+Definition set_ns v (n : node) := mkNode (n_ty n) (n_name n) (n_val n) (n_attrs n) (n_owner n) (n_first n) (n_prev n) (n_next n) (n_owned n) (n_isfirst n) (n_ro n) (n_odoc n) (n_docel n) v (n_nsimpl n) (n_oelem n) (n_dead n).
 
 (** while (child = getFirstChild()) { removeChild(child); newNode->appendChild(child); } *)
 Fixpoint rename_move (k : nat) (cf : cfg) (h : heap) (old new : id) : heap * result :=
@@ -513,7 +631,7 @@ Fixpoint rename_move (k : nat) (cf : cfg) (h : heap) (old new : id) : heap * res
 
 (** DOMElementImpl::rename, DOMElementNSImpl::rename, DOMAttrImpl::rename, DOMAttrNSImpl::rename (attributes are
     modelled detached from any element: getOwnerElement() == 0) *)
-Definition rename_node (cf : cfg) (h : heap) (doc n : id) (ns nm : str) : heap * result :=
+Definition rename_core (cf : cfg) (h : heap) (doc n : id) (ns nm : str) : heap * result :=
   if negb (oid_eqb (pub_odoc h n) (Some doc)) then (h, RErr WRONG_DOC)
   else
     let x := nd h n in
@@ -535,7 +653,7 @@ Definition rename_node (cf : cfg) (h : heap) (doc n : id) (ns nm : str) : heap *
         else match ns_bind is_attr ns nm with
              | None => (h, RErr NAMESPACE)
              | Some uri =>
-               let (h1, ne) := alloc h (mkNode (n_ty x) nm [] [] doc None None None false false false doc None uri true) in
+               let (h1, ne) := alloc h (mkNode (n_ty x) nm [] [] doc None None None false false false doc None uri true None false) in
                let par := if is_attr then None else parent h1 n in
                let nxt := next_sib h1 n in
                let (h2, r2) := match par with Some p => v_remove h1 p n | None => (h1, ROk) end in
@@ -544,11 +662,30 @@ Definition rename_node (cf : cfg) (h : heap) (doc n : id) (ns nm : str) : heap *
                     if is_err r3 then (h3, r3)
                     else let (h4, r4) := match par with Some p => v_insert cf h3 p ne nxt | None => (h3, ROk) end in
                          if is_err r4 then (h4, r4)
-                         else (upd (upd h4 ne (set_attrs (n_attrs (nd h4 n)))) n (set_attrs []), RNode ne)
+                         else (* moveSpecifiedAttributes: the Attr nodes change owner *)
+                              let al := n_attrs (nd h4 n) in
+                              let h5 := fold_left (fun h0 a => upd h0 a (set_oelem (Some ne))) al h4 in
+                              (upd (upd h5 ne (set_attrs al)) n (set_attrs []), RNode ne)
              end
       end.
 
-Definition valid (h : heap) (i : id) : bool := i <? length h.
+(** DOMDocumentImpl::renameNode.  An attribute that is on an element is first taken off it (el->removeAttributeNode(this)),
+    renamed, and put back (el->setAttributeNode(NS)); an exception raised in between leaves it detached *)
+Definition rename_node (cf : cfg) (h : heap) (doc n : id) (ns nm : str) : heap * result :=
+  if negb (oid_eqb (pub_odoc h n) (Some doc)) then (h, RErr WRONG_DOC)
+  else match (if ntype_eqb (n_ty (nd h n)) TAttr then n_oelem (nd h n) else None) with
+       | Some el =>
+         let (h1, r1) := remove_attribute_node h el n in
+         if is_err r1 then (h1, r1)
+         else let (h2, r2) := rename_core cf h1 doc n ns nm in
+              match r2 with
+              | RNode m => (fst (set_attribute_node h2 el m), RNode m)
+              | _ => (h2, r2)
+              end
+       | None => rename_core cf h doc n ns nm
+       end.
+
+Definition valid (h : heap) (i : id) : bool := (i <? length h) && negb (n_dead (nd h i)).
 Definition ovalid (h : heap) (o : option id) : bool := match o with Some i => valid h i | None => true end.
 
 (** one operation; an operand that is not a live node, or a call the static type of the operand does not offer
@@ -562,7 +699,8 @@ Definition step_cfg (cf : cfg) (h : heap) (o : op) : heap * result :=
   | OReplace p n o => if valid h p && valid h n && valid h o then v_replace cf h p n o else (h, RSkip)
   | OClone n deep => if valid h n then clone_node cf h n deep else (h, RSkip)
   | ONormalize n => if valid h n then normalize h n else (h, RSkip)
-  | OSetData n s => if valid h n && is_leaf (n_ty (nd h n)) then cd_set h n s else (h, RSkip)
+  | OSetData n s => if valid h n && is_leaf (n_ty (nd h n)) then cd_set h n s
+                    else if valid h n && ntype_eqb (n_ty (nd h n)) TAttr then attr_set_value h n s else (h, RSkip)
   | OAppendData n s => if valid h n && is_chardata (n_ty (nd h n)) then cd_append h n s else (h, RSkip)
   | OInsertData n off s => if valid h n && is_chardata (n_ty (nd h n)) then cd_insert h n off s else (h, RSkip)
   | ODeleteData n off cnt => if valid h n && is_chardata (n_ty (nd h n)) then cd_delete h n off cnt else (h, RSkip)
@@ -574,6 +712,11 @@ Definition step_cfg (cf : cfg) (h : heap) (o : op) : heap * result :=
   | OSetAttr e nm v => if valid h e && ntype_eqb (n_ty (nd h e)) TElem then set_attribute h e nm v else (h, RSkip)
   | ORemoveAttr e nm => if valid h e && ntype_eqb (n_ty (nd h e)) TElem then remove_attribute h e nm else (h, RSkip)
   | OGetAttr e nm => if valid h e && ntype_eqb (n_ty (nd h e)) TElem then get_attribute h e nm else (h, RSkip)
+  | OSetAttrNode e a =>
+    if valid h e && valid h a && ntype_eqb (n_ty (nd h e)) TElem && ntype_eqb (n_ty (nd h a)) TAttr then set_attribute_node h e a else (h, RSkip)
+  | ORemoveAttrNode e a =>
+    if valid h e && valid h a && ntype_eqb (n_ty (nd h e)) TElem && ntype_eqb (n_ty (nd h a)) TAttr then remove_attribute_node h e a else (h, RSkip)
+  | OGetAttrNode e nm => if valid h e && ntype_eqb (n_ty (nd h e)) TElem then get_attribute_node h e nm else (h, RSkip)
   | ORename d n ns nm =>
     if valid h d && valid h n && ntype_eqb (n_ty (nd h d)) TDoc then rename_node cf h d n ns nm else (h, RSkip)
   end.
@@ -589,5 +732,5 @@ Fixpoint run_cfg (cf : cfg) (h : heap) (l : list op) : heap * list result :=
   end.
 
 (** initial heap of a request: [n] empty documents, DOMImplementation::createDocument() *)
-Definition doc_node (i : id) : node := mkNode TDoc [] [] [] i None None None false false false i None [] false.
+Definition doc_node (i : id) : node := mkNode TDoc [] [] [] i None None None false false false i None [] false None false.
 Definition init_heap (n : nat) : heap := map doc_node (seq 0 n).
